@@ -32,7 +32,7 @@ Spec == Init /\ [][Next]_es
 
 PayloadPaths(f, c) ==
   LET r == PlanFor(c, MCTree, f) IN
-  IF r[1] # "ok" THEN {<<<<"failed">>, r[1]>>} ELSE { <<KeyPath(k), ExpKind(r[2][k])>> : k \in { x \in DOMAIN r[2] : InPayload(f, r[2][x]) } }
+  IF r[1] # "ok" THEN {<<<<"failed">>, r[1]>>} ELSE { <<KeyPath(k), ExpKind(r[2][k])>> : k \in { x \in DOMAIN r[2] : InPayloadK(f, r[2], x) } }
 ImplicitPaths(f, c) ==
   LET r == PlanFor(c, MCTree, f) IN
   IF r[1] # "ok" THEN {} ELSE { <<KeyPath(k), "dir">> : k \in { x \in DOMAIN r[2] : r[2][x].type = "implicit dir" } }
